@@ -1512,3 +1512,57 @@ class RShiftSecret(_ShiftSecret):
         from pyvc.sym import shr
         n = c.bitlength
         return {"V.value": And(*[Implies(c.v(e) == k, Eq(c.v(r), shr(c.v(x), k))) for k in range(1 << n)]), "V.inv": c.inv(r)}
+
+
+# ---------------------------------------------------------------------------
+# add_constraint: the one place where the guard enters the constraint system
+# ---------------------------------------------------------------------------
+
+@register
+class AddConstraint(Contract):
+    """add_constraint(v, w, y[, check]):
+       no guard:  emits exactly v*w = y; raises AssertionError iff the triple is false over the integers, errors are on
+                  and check is set;
+       guard g:   emits v*w = y + d and g*d = 0 for a fresh witness d = v*w - y: never raises, both triples hold
+                  honestly iff g = 0 or the triple holds; adversarially g = 1 forces v*w = y."""
+    name = "pysnark.runtime:add_constraint"
+    cprops = ()                   # whether the emitted triple holds is the CALLER's obligation (see V.honest_*)
+    skip_facets = "C"
+    sprops = ("C02", "C03")
+    vprops = ("C01", "C07", "C05")
+    tprops = ("C06",)
+    eprops = ()
+
+    def configs(self, tier):
+        return [dict(mode=m, check=k) for m in MODES for k in (True, False)]
+
+    def setup(self, c, cfg):
+        apply_mode(c, cfg["mode"])
+        return c.rt.add_constraint, (c.operand("v"), c.operand("w"), c.operand("y"), cfg["check"]), {}
+
+    def use_stub(self, c, *a, **k):
+        return False
+
+    def raises(self, c, v, w, y, check=True):
+        if guarded(c):
+            return []
+        return [(AssertionError, And(imul(c.v(v), c.v(w)) != c.v(y), bool(check), Not(ie(c))))]
+
+    def post(self, c, r, v, w, y, check=True):
+        from pyvc import ghost as gh
+        prod = fmul(c.eva(v), c.eva(w))
+        cons = [e for e in c.g.trace if isinstance(e, gh.Con)]
+        holds = And(*[c.g.holds_h(e) for e in cons])
+        triple = (imul(c.v(v), c.v(w)) - c.v(y)) % c.p == 0
+        d = {"V.none": r is None,
+             # honest satisfaction: everything emitted holds iff the caller's triple holds or the guard is dead
+             "V.honest_sat_iff_triple_or_dead_guard": holds == Or(triple, And(guarded(c), c.v(c.rt.guard) % c.p == 0)) if guarded(c)
+             else holds == triple,
+             "S.product": Implies(on(c), prod == c.eva(y)),
+             "canary.S.product": Implies(on(c), prod == (c.eva(y) + 1) % c.p)}
+        if not guarded(c) and check:
+            d["V.checked_triple_holds_when_errors_on"] = Implies(Not(ie(c)), imul(c.v(v), c.v(w)) == c.v(y))
+        return d
+
+    def counts(self, c, v, w, y, check=True):
+        return (0, 1, 2) if guarded(c) else (0, 0, 1)
